@@ -1,5 +1,583 @@
 import OomdModel.Config
 import OomdProofs.Parse
 
+/-!
+Helper lemmas for C12: `OomdModel.Config` (argument parser, plugin init, compiler) against
+`OomdModel.Config.Spec`.
+-/
+
 namespace OomdProofs.Config
+open OomdModel.Parse OomdModel.Parse.Spec OomdModel.Config OomdModel.Config.Spec OomdModel.Generated OomdProofs.Parse
+
+/-- what `init()` reads from the machine is within the range the property assumes: totals are
+    non-negative, `total * 100` fits int64, SwapTotal fits the `int` KillSwapUsage keeps it in -/
+structure EnvOk (env : Env) : Prop where
+  mem : ∀ loc t, env.memAt loc = some t → TotalOk t
+  swap : ∀ loc t, env.swapAt loc = some t → 0 ≤ t ∧ t < 2 ^ 31
+
+theorem totalOk_zero : TotalOk 0 := ⟨by decide, by decide⟩
+
+theorem wrap32_id {v : Int} (h0 : 0 ≤ v) (h1 : v < 2 ^ 31) : wrap32 v = v := by
+  unfold wrap32
+  rw [Int.emod_eq_of_lt (by omega) (by omega)]
+  omega
+
+/-! ## the table -/
+
+/-- the schemas regenerated from /repo are the pinned ones -/
+theorem schemas_eq : typedSchemas = declaredSchemas := by decide
+
+theorem all_check : ∀ sch ∈ declaredSchemas, sch.checksArgs = true := by decide
+
+/-! ## argument lists -/
+
+theorem hasArg_filter {args : List (Str × Str)} {q : Str × Str → Bool} {k : String}
+    (h : hasArg (args.filter q) k = true) : hasArg args k = true := by
+  unfold hasArg at h ⊢
+  simp only [List.any_eq_true, List.mem_filter] at h ⊢
+  obtain ⟨x, ⟨hx, _⟩, hk⟩ := h
+  exact ⟨x, hx, hk⟩
+
+theorem hasArg_erase_ne {args : List (Str × Str)} {k k' : String} (hne : k.toList ≠ k'.toList) :
+    hasArg (eraseArg args k) k' = hasArg args k' := by
+  unfold hasArg eraseArg
+  rw [List.any_filter]
+  congr 1
+  funext kv
+  by_cases h : kv.1 = k'.toList
+  · have : kv.1 ≠ k.toList := fun hc => hne (hc.symm.trans h)
+    simp [h, Ne.symm hne]
+  · simp [h]
+
+/-- what `fillArgs` stores, per given argument: the valid reading under the declared kind -/
+def readingIn (schema : List TypedArg) (fs : Str) (total : Int) (kv : Str × Str) : Option Val :=
+  match schema.find? (fun a => a.name.toList == kv.1) with
+  | none => none
+  | some a => validReading a.kind fs total kv.2
+
+theorem fillArgs_sound {schema : List TypedArg} {fs : Str} {total : Int} (ht : TotalOk total) :
+    ∀ {args : List (Str × Str)} {vals : List (Str × Val)}, fillArgs schema fs total args = some vals →
+      vals.map (fun kv => (kv.1, some kv.2)) = args.map (fun kv => (kv.1, readingIn schema fs total kv)) := by
+  intro args
+  induction args with
+  | nil => intro vals h; simp only [fillArgs, Option.some.injEq] at h; subst h; rfl
+  | cons kv rest ih =>
+    intro vals h
+    obtain ⟨k, v⟩ := kv
+    simp only [fillArgs] at h
+    cases hf : schema.find? (fun a => a.name.toList == k) with
+    | none => simp [hf] at h
+    | some a =>
+      simp only [hf] at h
+      cases hp : parseArg a.kind fs total v with
+      | error e => simp [hp] at h
+      | ok x =>
+        cases hr : fillArgs schema fs total rest with
+        | none => simp [hp, hr] at h
+        | some r =>
+          simp only [hp, hr, Option.some.injEq] at h
+          subst h
+          have := ih hr
+          have hrd : readingIn schema fs total (k, v) = some x := by
+            unfold readingIn; simp only [hf]; exact parseArg_sound ht hp
+          simp only [List.map_cons, this, hrd]
+
+theorem readings_some {vals : List (Str × Val)} {args : List (Str × Str)} {f : Str × Str → Option Val}
+    (h : vals.map (fun kv => (kv.1, some kv.2)) = args.map (fun kv => (kv.1, f kv))) :
+    ∀ kv ∈ args, (f kv).isSome = true := by
+  induction args generalizing vals with
+  | nil => intro kv hkv; simp at hkv
+  | cons a rest ih =>
+    cases vals with
+    | nil => simp at h
+    | cons w ws =>
+      simp only [List.map_cons, List.cons.injEq, Prod.mk.injEq] at h
+      intro kv hkv
+      simp only [List.mem_cons] at hkv
+      rcases hkv with rfl | hkv
+      · rw [← h.1.2]; rfl
+      · exact ih h.2 kv hkv
+
+theorem argParse_sound {schema : List TypedArg} {fs : Str} {total : Int} (ht : TotalOk total)
+    {args : List (Str × Str)} {vals : List (Str × Val)} (h : argParse schema fs total args = some vals) :
+    schema.all (fun a => !a.required || hasArg args a.name) = true ∧
+      vals.map (fun kv => (kv.1, some kv.2)) = args.map (fun kv => (kv.1, readingIn schema fs total kv)) := by
+  unfold argParse at h
+  by_cases hr : schema.any (fun a => a.required && !hasArg args a.name) = true
+  · rw [if_pos hr] at h; exact absurd h (by simp)
+  · rw [if_neg hr] at h
+    refine ⟨?_, fillArgs_sound ht h⟩
+    simp only [List.all_eq_true]
+    intro a ha
+    simp only [List.any_eq_true, not_exists, not_and] at hr
+    have := hr a ha
+    cases hreq : a.required <;> cases hh : hasArg args a.name <;> simp_all
+
+/-! ## plugin init -/
+
+theorem bne_flip (a b : Str) : (a != b) = !(b == a) := by
+  rw [Bool.beq_comm]; rfl
+
+theorem isExtern_erase (args : List (Str × Str)) (k : String) :
+    eraseArg args k = args.filter (fun kv => !([k].any (fun n => n.toList == kv.1))) := by
+  unfold eraseArg
+  congr 1
+  funext kv
+  simp only [List.any_cons, List.any_nil, Bool.or_false]
+  exact bne_flip _ _
+
+theorem erase_erase (args : List (Str × Str)) (k k' : String) :
+    eraseArg (eraseArg args k) k' = args.filter (fun kv => !([k, k'].any (fun n => n.toList == kv.1))) := by
+  unfold eraseArg
+  rw [List.filter_filter]
+  congr 1
+  funext kv
+  simp only [List.any_cons, List.any_nil, Bool.or_false, Bool.not_or]
+  rw [bne_flip, bne_flip, Bool.and_comm]
+
+/-- validity and honouring of one plugin's arguments, in the shape `pluginValid` / `expectedVals` use -/
+def ArgsOk (env : Env) (sch : TypedSchema) (args : List (Str × Str)) (vals : List (Str × Val)) : Prop :=
+  let d := declaredFor sch args
+  d.args.all (fun a => !a.required || hasArg args a.name) = true ∧
+  args.all (fun kv => isExtern d kv.1 || (argReading env sch d args kv).isSome) = true ∧
+  vals.map (fun kv => (kv.1, some kv.2)) =
+    (args.filter (fun kv => !isExtern d kv.1)).map (fun kv => (kv.1, argReading env sch d args kv))
+
+/-- generic step: the parser ran on `args` minus the externally consumed ones -/
+theorem argsOk_of_parse {env : Env} {sch : TypedSchema} {args : List (Str × Str)} {vals : List (Str × Val)}
+    {d : Declared} (hd : declaredFor sch args = d) {total : Int} (ht : TotalOk total)
+    (htot : totalFor env sch args = total)
+    (h : argParse d.args env.fs total (args.filter (fun kv => !isExtern d kv.1)) = some vals) :
+    ArgsOk env sch args vals := by
+  unfold ArgsOk
+  rw [hd]
+  obtain ⟨h1, h2⟩ := argParse_sound ht h
+  have hread : ∀ kv, readingIn d.args env.fs total kv = argReading env sch d args kv := by
+    intro kv; unfold readingIn argReading; rw [htot]
+    cases List.find? (fun a => a.name.toList == kv.1) d.args <;> rfl
+  refine ⟨?_, ?_, ?_⟩
+  · simp only [List.all_eq_true] at h1 ⊢
+    intro a ha
+    have := h1 a ha
+    cases hreq : a.required
+    · simp
+    · simp only [hreq, Bool.not_true, Bool.false_or] at this ⊢
+      exact hasArg_filter this
+  · simp only [List.all_eq_true]
+    intro kv hkv
+    by_cases he : isExtern d kv.1 = true
+    · simp [he]
+    · have hmem : kv ∈ args.filter (fun kv => !isExtern d kv.1) := by
+        simp only [List.mem_filter]; exact ⟨hkv, by simpa using he⟩
+      have := readings_some h2 kv hmem
+      rw [hread] at this
+      simp [this]
+  · rw [h2]
+    apply List.map_congr_left
+    intro kv _
+    rw [hread]
+
+theorem pluginInit_sound {env : Env} (he : EnvOk env) {sch : TypedSchema} (hc : sch.checksArgs = true)
+    {args : List (Str × Str)} {vals : List (Str × Val)} (h : pluginInit env sch args = some vals) :
+    ArgsOk env sch args vals := by
+  unfold pluginInit at h
+  simp only [hc, Bool.not_true, Bool.false_eq_true, if_false] at h
+  by_cases hm : (sch.plugin == "memory_above") = true
+  · rw [if_pos hm] at h
+    cases hmem : env.memAt (lookupArg args "meminfo_location") with
+    | none => simp [hmem] at h
+    | some mt =>
+      simp only [hmem] at h
+      have hanon : hasArg (eraseArg args "meminfo_location") "threshold_anon" = hasArg args "threshold_anon" :=
+        hasArg_erase_ne (by decide)
+      rw [hanon] at h
+      have htot : totalFor env sch args = mt := by
+        unfold totalFor; rw [if_pos hm, hmem]; rfl
+      by_cases ha : hasArg args "threshold_anon" = true
+      · rw [if_pos ha, if_pos ha] at h
+        have hd : declaredFor sch args =
+            ⟨sch.args.map (renameArg "threshold" "threshold_anon"), ["meminfo_location", "threshold"]⟩ := by
+          unfold declaredFor; rw [if_pos hm, if_pos ha]
+        rw [erase_erase] at h
+        exact argsOk_of_parse hd (he.mem _ _ hmem) htot (by
+          simp only [isExtern]
+          have hmap : (sch.args.map fun a => if a.name == "threshold" then { a with name := "threshold_anon" } else a) =
+              sch.args.map (renameArg "threshold" "threshold_anon") := rfl
+          rw [hmap] at h
+          exact h)
+      · rw [if_neg ha, if_neg ha] at h
+        have hd : declaredFor sch args = ⟨sch.args, ["meminfo_location"]⟩ := by
+          unfold declaredFor; rw [if_pos hm, if_neg ha]
+        rw [isExtern_erase] at h
+        exact argsOk_of_parse hd (he.mem _ _ hmem) htot (by simpa only [isExtern] using h)
+  · rw [if_neg hm] at h
+    by_cases hs : (sch.plugin == "kill_by_swap_usage") = true
+    · rw [if_pos hs] at h
+      have hd : declaredFor sch args = ⟨sch.args, ["meminfo_location"]⟩ := by
+        unfold declaredFor; rw [if_neg hm, if_pos hs]
+      have htot : totalFor env sch args = wrap32 ((env.swapAt (lookupArg args "meminfo_location")).getD 0) := by
+        unfold totalFor; rw [if_neg hm, if_pos hs]
+      have htok : TotalOk (wrap32 ((env.swapAt (lookupArg args "meminfo_location")).getD 0)) := by
+        cases hsw : env.swapAt (lookupArg args "meminfo_location") with
+        | none => simp only [Option.getD_none]; rw [wrap32_id (by decide) (by decide)]; exact totalOk_zero
+        | some t =>
+          obtain ⟨h0, h1⟩ := he.swap _ _ hsw
+          simp only [Option.getD_some]
+          rw [wrap32_id h0 h1]
+          exact ⟨h0, by omega⟩
+      rw [isExtern_erase] at h
+      exact argsOk_of_parse hd htok htot (by simpa only [isExtern] using h)
+    · rw [if_neg hs] at h
+      have hd : declaredFor sch args = ⟨sch.args, []⟩ := by
+        unfold declaredFor; rw [if_neg hm, if_neg hs]
+      have htot : totalFor env sch args = 0 := by
+        unfold totalFor; rw [if_neg hm, if_neg hs]
+      have hfil : args.filter (fun kv => !isExtern ⟨sch.args, []⟩ kv.1) = args := by
+        apply List.filter_eq_self.2
+        intro kv _
+        simp [isExtern]
+      exact argsOk_of_parse hd totalOk_zero htot (by rw [hfil]; exact h)
+
+/-- `compilePluginGeneric`: an instantiated plugin is valid and holds exactly what it was given -/
+theorem compilePlugin_sound {env : Env} (he : EnvOk env) {hook : Bool} {p : IRPlugin} {i : PluginInst}
+    (h : compilePlugin env hook p = some i) : pluginValid env hook p = true ∧ instHonours env hook p i := by
+  unfold compilePlugin at h
+  by_cases hn : p.name.isEmpty = true
+  · rw [if_pos hn] at h; exact absurd h (by simp)
+  · rw [if_neg hn] at h
+    rw [schemas_eq] at h
+    cases hs : schemaOf declaredSchemas hook p.name with
+    | none => simp [hs] at h
+    | some sch =>
+      simp only [hs] at h
+      cases hi : pluginInit env sch p.args with
+      | none => simp [hi] at h
+      | some vals =>
+        simp only [hi, Option.some.injEq] at h
+        subst h
+        have hmem : sch ∈ declaredSchemas := by
+          unfold schemaOf at hs
+          exact List.mem_of_find?_eq_some hs
+        obtain ⟨h1, h2, h3⟩ := pluginInit_sound he (all_check sch hmem) hi
+        constructor
+        · unfold pluginValid
+          simp only [hs]
+          have : (!p.name.isEmpty) = true := by simpa using hn
+          simp only [this, Bool.true_and, Bool.and_eq_true]
+          exact ⟨h1, h2⟩
+        · refine ⟨rfl, rfl, ?_⟩
+          unfold expectedVals
+          simp only [hs]
+          exact h3
+
+theorem compilePlugins_sound {env : Env} (he : EnvOk env) {hook : Bool} :
+    ∀ {ps : List IRPlugin} {is : List PluginInst}, compilePlugins env hook ps = some is →
+      ps.all (pluginValid env hook) = true ∧ Forall2 (instHonours env hook) ps is := by
+  intro ps
+  induction ps with
+  | nil => intro is h; simp only [compilePlugins, Option.some.injEq] at h; subst h; simp [Forall2]
+  | cons p rest ih =>
+    intro is h
+    simp only [compilePlugins] at h
+    cases hp : compilePlugin env hook p with
+    | none => simp [hp] at h
+    | some i =>
+      simp only [hp] at h
+      cases hr : compilePlugins env hook rest with
+      | none => simp [hr] at h
+      | some is' =>
+        simp only [hr, Option.some.injEq] at h
+        subst h
+        obtain ⟨h1, h2⟩ := compilePlugin_sound he hp
+        obtain ⟨h3, h4⟩ := ih hr
+        exact ⟨by simp [h1, h3], ⟨h2, h4⟩⟩
+
+theorem compileDetectorGroup_sound {env : Env} (he : EnvOk env) {g : IRDetectorGroup} {c : DetectorGroupC}
+    (h : compileDetectorGroup env g = some c) :
+    (!g.name.isEmpty && g.detectors.all (pluginValid env false)) = true ∧ groupHonours env g c := by
+  unfold compileDetectorGroup at h
+  by_cases hn : g.name.isEmpty = true
+  · rw [if_pos hn] at h; exact absurd h (by simp)
+  · rw [if_neg hn] at h
+    by_cases hd : g.detectors.isEmpty = true
+    · rw [if_pos hd] at h; exact absurd h (by simp)
+    · rw [if_neg hd] at h
+      cases hp : compilePlugins env false g.detectors with
+      | none => simp [hp] at h
+      | some ds =>
+        simp only [hp, Option.map_some, Option.some.injEq] at h
+        subst h
+        obtain ⟨h1, h2⟩ := compilePlugins_sound he hp
+        have : (!g.name.isEmpty) = true := by simpa using hn
+        exact ⟨by simp [this, h1], ⟨rfl, h2⟩⟩
+
+theorem compileDetectorGroups_sound {env : Env} (he : EnvOk env) :
+    ∀ {gs : List IRDetectorGroup} {cs : List DetectorGroupC}, compileDetectorGroups env gs = some cs →
+      gs.all (fun g => !g.name.isEmpty && g.detectors.all (pluginValid env false)) = true ∧
+        Forall2 (groupHonours env) gs cs := by
+  intro gs
+  induction gs with
+  | nil => intro cs h; simp only [compileDetectorGroups, Option.some.injEq] at h; subst h; simp [Forall2]
+  | cons g rest ih =>
+    intro cs h
+    simp only [compileDetectorGroups] at h
+    cases hg : compileDetectorGroup env g with
+    | none => simp [hg] at h
+    | some c =>
+      simp only [hg] at h
+      cases hr : compileDetectorGroups env rest with
+      | none => simp [hr] at h
+      | some cs' =>
+        simp only [hr, Option.some.injEq] at h
+        subst h
+        obtain ⟨h1, h2⟩ := compileDetectorGroup_sound he hg
+        obtain ⟨h3, h4⟩ := ih hr
+        refine ⟨?_, ⟨h2, h4⟩⟩
+        simp only [List.all_cons, h3, Bool.and_true]
+        exact h1
+
+/-! ## outcomes: nothing escapes -/
+
+theorem bind_ok {α β : Type} {r : Res α} {f : α → Res β} {b : β} (h : r.bind f = .ok b) :
+    ∃ a, r = .ok a ∧ f a = .ok b := by
+  cases r with
+  | ok a => exact ⟨a, rfl, h⟩
+  | rejected => simp [Res.bind] at h
+  | throws e => simp [Res.bind] at h
+
+def NoThrow {α : Type} (r : Res α) : Prop := ∀ e, r ≠ .throws e
+
+theorem noThrow_bind {α β : Type} {r : Res α} {f : α → Res β} (hr : NoThrow r) (hf : ∀ a, NoThrow (f a)) :
+    NoThrow (r.bind f) := by
+  cases r with
+  | ok a => exact hf a
+  | rejected => intro e h; simp [Res.bind] at h
+  | throws e => exact absurd rfl (hr e)
+
+theorem noThrow_catchAll {α : Type} (r : Res α) : NoThrow r.catchAll := by
+  cases r <;> intro e h <;> simp [Res.catchAll] at h
+
+theorem noThrow_ofOption {α : Type} (o : Option α) : NoThrow (ofOption o) := by
+  cases o <;> intro e h <;> simp [ofOption] at h
+
+theorem noThrow_ok {α : Type} (a : α) : NoThrow (Res.ok a) := by intro e h; simp at h
+theorem noThrow_rejected {α : Type} : NoThrow (Res.rejected : Res α) := by intro e h; simp at h
+
+theorem noThrow_parseDelay (s : Str) : NoThrow (parseDelay s) := noThrow_catchAll _
+
+theorem noThrow_ite {α : Type} {c : Prop} [Decidable c] {a b : Res α} (ha : NoThrow a) (hb : NoThrow b) :
+    NoThrow (if c then a else b) := by
+  by_cases h : c
+  · rw [if_pos h]; exact ha
+  · rw [if_neg h]; exact hb
+
+theorem noThrow_compileRuleset (env : Env) (dropin : Bool) (r : IRRuleset) :
+    NoThrow (compileRuleset env dropin r) := by
+  unfold compileRuleset
+  apply noThrow_ite noThrow_rejected
+  apply noThrow_bind (noThrow_ofOption _)
+  intro mask
+  apply noThrow_ite noThrow_rejected
+  apply noThrow_bind (noThrow_ite (noThrow_ok _) (noThrow_parseDelay _))
+  intro pad
+  apply noThrow_bind (noThrow_ite (noThrow_ok _) (noThrow_parseDelay _))
+  intro pht
+  apply noThrow_bind (noThrow_ofOption _)
+  intro dgs
+  apply noThrow_bind (noThrow_ofOption _)
+  intro acts
+  exact noThrow_ok _
+
+theorem noThrow_compileRulesets (env : Env) : ∀ rs, NoThrow (compileRulesets env rs) := by
+  intro rs
+  induction rs with
+  | nil => exact noThrow_ok _
+  | cons r rest ih =>
+    unfold compileRulesets
+    apply noThrow_bind (noThrow_compileRuleset env false r)
+    intro c
+    apply noThrow_bind ih
+    intro cs
+    exact noThrow_ok _
+
+theorem noThrow_compile (env : Env) (root : IRRoot) : NoThrow (compile env root) := by
+  unfold compile
+  apply noThrow_bind (noThrow_compileRulesets env _)
+  intro rs
+  apply noThrow_bind (noThrow_ofOption _)
+  intro hs
+  exact noThrow_ok _
+
+theorem noThrow_compileDropInRulesets (env : Env) (base : List IRRuleset) :
+    ∀ ds, NoThrow (compileDropInRulesets env base ds) := by
+  intro ds
+  induction ds with
+  | nil => exact noThrow_ok _
+  | cons d rest ih =>
+    unfold compileDropInRulesets
+    cases base.find? (fun rs => rs.name == d.name) with
+    | none => exact noThrow_rejected
+    | some rs =>
+      simp only
+      apply noThrow_bind (noThrow_compileRuleset env false rs)
+      intro t
+      apply noThrow_bind (noThrow_compileRuleset env true d)
+      intro dr
+      apply noThrow_bind (noThrow_ofOption _)
+      intro m
+      apply noThrow_bind ih
+      intro rest'
+      exact noThrow_ok _
+
+theorem noThrow_compileDropIn (env : Env) (root dropin : IRRoot) : NoThrow (compileDropIn env root dropin) := by
+  unfold compileDropIn
+  apply noThrow_bind (noThrow_compileDropInRulesets env _ _)
+  intro rs
+  apply noThrow_bind (noThrow_ofOption _)
+  intro hs
+  exact noThrow_ok _
+
+/-! ## rulesets -/
+
+theorem parseDelay_ok {s : Str} {v : Int} (h : parseDelay s = .ok v) :
+    inRange 0 (2 ^ 31) (intNumeral? s) = some v := by
+  unfold parseDelay at h
+  simp only at h
+  cases hst : stoi s with
+  | error e => cases e <;> simp [hst, Res.catchAll] at h
+  | ok pr =>
+    obtain ⟨x, rest⟩ := pr
+    simp only [hst] at h
+    by_cases hr : (!rest.isEmpty) = true
+    · rw [if_pos hr] at h; simp [Res.catchAll] at h
+    · rw [if_neg hr] at h
+      by_cases hx : x < 0
+      · rw [if_pos hx] at h; simp [Res.catchAll] at h
+      · rw [if_neg hx] at h
+        simp only [Res.catchAll, Res.ok.injEq] at h
+        subst h
+        have hrest : rest = [] := by
+          cases rest with
+          | nil => rfl
+          | cons c cs => simp at hr
+        subst hrest
+        obtain ⟨r, h1, h2, h3, _, h5⟩ := (stoSigned_ok (bits := 32)).1 hst
+        rw [scanInt_whole h1 h3.symm, ← h2]
+        simp only [inRange]
+        have : (0 : Int) ≤ x ∧ x < 2 ^ 31 := ⟨by omega, h5⟩
+        rw [if_pos this]
+
+theorem delayField_ok {dflt : Nat} {s : Str} {v : Int}
+    (h : (if s.isEmpty then Res.ok (dflt : Int) else parseDelay s) = .ok v) :
+    delayReading dflt s = some v ∧ delayValid s = true := by
+  unfold delayReading delayValid
+  by_cases he : s.isEmpty = true
+  · rw [if_pos he] at h ⊢
+    simp only [Res.ok.injEq] at h
+    simp [h, he]
+  · rw [if_neg he] at h ⊢
+    have := parseDelay_ok h
+    refine ⟨this, ?_⟩
+    rw [this]; simp
+
+theorem compileRuleset_sound {env : Env} (he : EnvOk env) {dropin : Bool} {r : IRRuleset} {c : RulesetC}
+    (h : compileRuleset env dropin r = .ok c) : rulesetValid env r = true ∧ rulesetHonours env r c := by
+  unfold compileRuleset at h
+  by_cases hn : r.name.isEmpty = true
+  · rw [if_pos hn] at h; exact absurd h (by simp)
+  · rw [if_neg hn] at h
+    obtain ⟨mask, _, h⟩ := bind_ok h
+    by_cases hb : (!dropin && (r.dgs.isEmpty || r.acts.isEmpty)) = true
+    · rw [if_pos hb] at h; exact absurd h (by simp)
+    · rw [if_neg hb] at h
+      obtain ⟨pad, hpad, h⟩ := bind_ok h
+      obtain ⟨pht, hpht, h⟩ := bind_ok h
+      obtain ⟨dgs, hdgs, h⟩ := bind_ok h
+      obtain ⟨acts, hacts, h⟩ := bind_ok h
+      simp only [Res.ok.injEq] at h
+      subst h
+      have hdgs' : compileDetectorGroups env r.dgs = some dgs := by
+        cases hx : compileDetectorGroups env r.dgs with
+        | none => simp [hx, ofOption] at hdgs
+        | some y => simp only [hx, ofOption, Res.ok.injEq] at hdgs; rw [hdgs]
+      have hacts' : compilePlugins env false r.acts = some acts := by
+        cases hx : compilePlugins env false r.acts with
+        | none => simp [hx, ofOption] at hacts
+        | some y => simp only [hx, ofOption, Res.ok.injEq] at hacts; rw [hacts]
+      obtain ⟨g1, g2⟩ := compileDetectorGroups_sound he hdgs'
+      obtain ⟨a1, a2⟩ := compilePlugins_sound he hacts'
+      obtain ⟨d1, d2⟩ := delayField_ok hpad
+      obtain ⟨d3, d4⟩ := delayField_ok hpht
+      constructor
+      · unfold rulesetValid
+        have : (!r.name.isEmpty) = true := by simpa using hn
+        simp [this, d2, d4, g1, a1]
+      · exact ⟨rfl, g2, a2, d1, d3, rfl, rfl, rfl, rfl, rfl⟩
+
+theorem compileRulesets_sound {env : Env} (he : EnvOk env) :
+    ∀ {rs : List IRRuleset} {cs : List RulesetC}, compileRulesets env rs = .ok cs →
+      rs.all (rulesetValid env) = true ∧ Forall2 (rulesetHonours env) rs cs := by
+  intro rs
+  induction rs with
+  | nil => intro cs h; simp only [compileRulesets, Res.ok.injEq] at h; subst h; simp [Forall2]
+  | cons r rest ih =>
+    intro cs h
+    unfold compileRulesets at h
+    obtain ⟨c, hc, h⟩ := bind_ok h
+    obtain ⟨cs', hcs, h⟩ := bind_ok h
+    simp only [Res.ok.injEq] at h
+    subst h
+    obtain ⟨h1, h2⟩ := compileRuleset_sound he hc
+    obtain ⟨h3, h4⟩ := ih hcs
+    exact ⟨by simp [h1, h3], ⟨h2, h4⟩⟩
+
+theorem ofOption_ok {α : Type} {o : Option α} {a : α} (h : ofOption o = .ok a) : o = some a := by
+  cases o with
+  | none => simp [ofOption] at h
+  | some x => simp only [ofOption, Res.ok.injEq] at h; rw [h]
+
+theorem compile_sound {env : Env} (he : EnvOk env) {root : IRRoot} {e : EngineC}
+    (h : compile env root = .ok e) : irValid env root = true ∧ engineHonours env root e := by
+  unfold compile at h
+  obtain ⟨rs, hrs, h⟩ := bind_ok h
+  obtain ⟨hs, hhs, h⟩ := bind_ok h
+  simp only [Res.ok.injEq] at h
+  subst h
+  obtain ⟨h1, h2⟩ := compileRulesets_sound he hrs
+  obtain ⟨h3, h4⟩ := compilePlugins_sound he (ofOption_ok hhs)
+  exact ⟨by simp [irValid, h1, h3], ⟨h2, h4⟩⟩
+
+theorem compileDropInRulesets_sound {env : Env} (he : EnvOk env) (base : List IRRuleset) :
+    ∀ {ds : List IRRuleset} {ms : List RulesetC}, compileDropInRulesets env base ds = .ok ms →
+      ds.all (fun d => rulesetValid env d && base.any (fun b => b.name == d.name)) = true := by
+  intro ds
+  induction ds with
+  | nil => intro ms _; rfl
+  | cons d rest ih =>
+    intro ms h
+    unfold compileDropInRulesets at h
+    cases hf : base.find? (fun rs => rs.name == d.name) with
+    | none => simp [hf] at h
+    | some rs =>
+      simp only [hf] at h
+      obtain ⟨t, _, h⟩ := bind_ok h
+      obtain ⟨dr, hdr, h⟩ := bind_ok h
+      obtain ⟨m, _, h⟩ := bind_ok h
+      obtain ⟨rest', hrest, h⟩ := bind_ok h
+      have h1 := (compileRuleset_sound he hdr).1
+      have h2 : base.any (fun b => b.name == d.name) = true := by
+        simp only [List.any_eq_true]
+        exact ⟨rs, List.mem_of_find?_eq_some hf, List.find?_some (p := fun (rs : IRRuleset) => rs.name == d.name) hf⟩
+      simp only [List.all_cons, h1, h2, Bool.and_self, Bool.true_and]
+      exact ih hrest
+
+theorem compileDropIn_sound {env : Env} (he : EnvOk env) {root dropin : IRRoot} {u : DropInUnitC}
+    (h : compileDropIn env root dropin = .ok u) : dropInValid env root dropin = true := by
+  unfold compileDropIn at h
+  obtain ⟨rs, hrs, h⟩ := bind_ok h
+  obtain ⟨hs, hhs, h⟩ := bind_ok h
+  have h1 := compileDropInRulesets_sound he root.rulesets hrs
+  have h2 := (compilePlugins_sound he (ofOption_ok hhs)).1
+  simp [dropInValid, h1, h2]
+
 end OomdProofs.Config
